@@ -67,6 +67,20 @@ Theorem c01_unterminated_record_reported : forall ts f,
 Proof. exact P21Skip_Proofs.skip_instance_unterminated. Qed.
 Print Assumptions c01_unterminated_record_reported.
 
+(* between two tokens (src/clstepcore/read_func.cc ReadTokenSeparator / ReadComment): any run of white space and comments -
+   any number of them, of any length, with any text that lacks the closing mark - is skipped, and nothing of the token after it *)
+Theorem c01_token_separator_skipped : forall s c rest,
+  P21Scan.seps_ok s = true -> is_space c = false -> N.eqb c P21Scan.SLASH = false -> N.eqb c P21Skip.BSLASH = false ->
+  P21Skip.token_separator (P21Scan.seps_text s ++ c :: rest) = c :: rest.
+Proof. exact P21Skip_Proofs.token_separator_skips. Qed.
+Print Assumptions c01_token_separator_skipped.
+
+(* a print control directive (\N\ or \F\, Part 21 of 1994) between tokens is skipped and the token after it kept *)
+Example c01_print_control_directive_skipped :
+  P21Skip.token_separator [32; 92; 78; 92; 35; 49; 61]%N = [35; 49; 61]%N /\
+  P21Skip.token_separator [92; 70; 92; 10; 47; 42; 120; 42; 47; 35; 50]%N = [35; 50]%N.
+Proof. vm_compute. split; reflexivity. Qed.
+
 Example c01_skip_example :
   let ts := [P21Skip.SChr 65%N; P21Skip.SChr 40%N; P21Skip.SStr [P21Str.Plain 120%N; P21Str.Plain 59%N; P21Str.Apos; P21Str.Page 39%N];
              P21Skip.SChr 44%N; P21Skip.SCmt [32; 59; 32; 39; 42; 32]%N; P21Skip.SChr 32%N; P21Skip.SChr 35%N; P21Skip.SChr 49%N; P21Skip.SChr 41%N; P21Skip.SChr 32%N] in
